@@ -142,8 +142,12 @@ def _worker(chunk):
         st["programs"] += 1
         try:
             pipe = build_pipeline(prog)
-        except Exception as exc:  # loader refuses: outside "configurations the loader accepts"
+        except Exception as exc:  # the loader / Pipeline(...) refuses: legitimate only for a configuration the reference calls invalid
             st["outcomes"]["loader-rejects:" + type(exc).__name__] = st["outcomes"].get("loader-rejects:" + type(exc).__name__, 0) + 1
+            r0 = interp.run(prog, gen.ref_data("none"), {})
+            if not (r0.status == "construct" and r0.error == type(exc).__name__):
+                st["viol"].append(("loader-refuses-valid-configuration", f"{list(prog)}: {type(exc).__name__}: {str(exc)[:200]} (reference: {r0.status} {r0.error})",
+                                   {"prog": list(prog), "data": "none", "ctx": {}}))
             continue
         did_prefix = False
         for dkind in data_kinds_for(prog):
